@@ -90,35 +90,46 @@ def by_prefix(*prefixes):
 # ======================================================================================================
 # archives
 
+VOL_NORAND = dict(Seed=1, NRand=0)
+
+
+def VOL_RAND(run):
+    """The seeded random family of MC_Vol: file sets over a wide name alphabet, drawn from VERIF_SEED."""
+    return dict(Seed=vlib.SEED % 300, NRand=1500 if run.thorough else 250)
+
+
 VOL_INV = ("LayoutWellFormed", "SortedAscending", "Export")      # MC_Vol: one TLC state per file set, laws as invariants
 
 
 def c01(run):
-    run.scen("MC_Vol", {"MaxFiles": 3 if run.thorough else 2, "Big": "FALSE"}, invariants=VOL_INV, workers=8)
+    run.scen("MC_Vol", dict(VOL_RAND(run), MaxFiles=3 if run.thorough else 2, Big="FALSE"), invariants=VOL_INV, workers=8)
     # members around the 128 KiB copy chunk of Writer::Write(Reader&)
-    run.scen("MC_Vol", {"MaxFiles": 2 if run.thorough else 1, "Big": "TRUE"}, invariants=VOL_INV, workers=8, name="MC_Vol (copy-chunk boundary sizes)")
+    run.scen("MC_Vol", dict(VOL_NORAND, MaxFiles=2 if run.thorough else 1, Big="TRUE"), invariants=VOL_INV, workers=8, name="MC_Vol (copy-chunk boundary sizes)")
 
 
 def c02(run):
     # writer direction: TLC asserts WellFormed on every layout; the code's bytes must equal that layout
-    run.scen("MC_Vol", {"MaxFiles": 3 if run.thorough else 2, "Big": "FALSE"}, invariants=VOL_INV, workers=8, own=by_prefix("file_eq", "vol_create", "scenario"), name="MC_Vol (writer direction)")
+    run.scen("MC_Vol", dict(VOL_RAND(run), MaxFiles=3 if run.thorough else 2, Big="FALSE"), invariants=VOL_INV, workers=8, own=by_prefix("file_eq", "vol_create", "scenario"), name="MC_Vol (writer direction)")
     # reader direction: archives from the independent encoder
     run.scen("MC_VolRef", {}, small_heap=True)
 
 
+CLM_INV = ("EndsWithLast", "OffsetsAccumulate", "NamesAscending", "Export")
+
+
 def c03(run):
-    run.scen("MC_Clm", {"MaxFiles": 3 if run.thorough else 2})
+    run.scen("MC_Clm", {"MaxFiles": 3 if run.thorough else 2, "Seed": vlib.SEED % 300, "NRand": 1500 if run.thorough else 300}, invariants=CLM_INV, workers=8)
 
 
 def c17(run):
-    run.scen("MC_Vol", {"MaxFiles": 2, "Big": "FALSE"}, invariants=VOL_INV, workers=8, own=by_prefix("vol_index", "vol_member_err", "scenario"), name="MC_Vol (lookups)")
+    run.scen("MC_Vol", dict(VOL_RAND(run), MaxFiles=2, Big="FALSE"), invariants=VOL_INV, workers=8, own=by_prefix("vol_index", "vol_member_err", "scenario"), name="MC_Vol (lookups)")
     run.scen("MC_ResMgr", {})
 
 
 def c20(run):
     run.scen("MC_Limits", {}, own=lambda m: not site_of(m).startswith(("prefixed_read", "typed_roundtrip")))       # VOL / CLM size vectors (sparse files), size-prefixed container writes
     run.scen("MC_LimitsPrt", {"MaxLayers": 130})                         # every layer-list length 0..130 against every 7-bit count
-    run.scen("MC_Clm", {"MaxFiles": 1}, own=by_prefix("clm_create", "scenario"), name="MC_Clm (names of 8 and 9 characters)")
+    run.scen("MC_Clm", {"MaxFiles": 1, "Seed": vlib.SEED % 300, "NRand": 100}, invariants=CLM_INV, workers=8, own=by_prefix("clm_create", "scenario"), name="MC_Clm (names of 8 and 9 characters)")
 
 
 # ======================================================================================================
